@@ -29,6 +29,8 @@ pub struct Weights {
     pub rogue_msg: u32,
     pub replay: u32,
     pub hostile: u32,
+    /// traffic of / confusion with the second group (only useful with `SetupOpts::side_percent`)
+    pub side: u32,
 }
 
 impl Default for Weights {
@@ -56,6 +58,7 @@ impl Default for Weights {
             rogue_msg: 0,
             replay: 0,
             hostile: 0,
+            side: 0,
         }
     }
 }
@@ -116,12 +119,13 @@ pub fn op_strategy(w: &Weights) -> BoxedStrategy<Op> {
     ));
     v.push((
         w.remove,
-        (m, any::<u16>(), ts.clone(), ap.clone())
-            .prop_map(|(m, target, ts, apply)| Op::Remove {
+        (m, any::<u16>(), ts.clone(), ap.clone(), prop_oneof![5 => Just(0u8), 2 => Just(1u8), 1 => Just(2u8)])
+            .prop_map(|(m, target, ts, apply, extra)| Op::Remove {
                 m,
                 target,
                 ts,
                 apply,
+                extra,
             })
             .boxed(),
     ));
@@ -173,7 +177,7 @@ pub fn op_strategy(w: &Weights) -> BoxedStrategy<Op> {
         ));
         v.push((
             w.rogue_msg,
-            (m, 0u8..3, 0u8..4, any::<u16>(), 0u8..3)
+            (m, 0u8..4, 0u8..4, any::<u16>(), 0u8..3)
                 .prop_map(|(m, pubkey_sel, id_sel, sel, kind)| Op::RogueMsg { m, pubkey_sel, id_sel, sel, kind })
                 .boxed(),
         ));
@@ -198,6 +202,18 @@ pub fn op_strategy(w: &Weights) -> BoxedStrategy<Op> {
             (m, any::<u16>(), any::<u16>(), hm).prop_map(|(m, v, sel, mutation)| Op::Hostile { m, v, sel, mutation }).boxed(),
         ));
     }
+    {
+        use crate::world::SideOp as S;
+        let so = prop_oneof![
+            4 => (any::<u16>(), ts.clone()).prop_map(|(m, ts)| S::Msg { m, ts }),
+            3 => (0u8..4, ts.clone()).prop_map(|(kind, ts)| S::Commit { kind, ts }),
+            2 => (any::<u16>(), any::<u16>()).prop_map(|(m, sel)| S::ToNonMember { m, sel }),
+            3 => (any::<u16>(), any::<u16>()).prop_map(|(v, sel)| S::TaggedAsMain { v, sel }),
+            3 => (any::<u16>(), any::<u16>()).prop_map(|(v, sel)| S::MainTaggedAsSide { v, sel }),
+            2 => any::<u16>().prop_map(|sel| S::MainToSideOnly { sel }),
+        ];
+        v.push((w.side, so.prop_map(Op::Side).boxed()));
+    }
     let v: Vec<(u32, BoxedStrategy<Op>)> = v.into_iter().filter(|(w, _)| *w > 0).collect();
     proptest::strategy::Union::new_weighted(v).boxed()
 }
@@ -215,6 +231,8 @@ pub struct SetupOpts {
     pub cfgs: Vec<Cfg>,
     pub with_reference: bool,
     pub twin: bool,
+    /// probability (percent) that the world has a second live group
+    pub side_percent: u32,
 }
 
 impl Default for SetupOpts {
@@ -230,6 +248,7 @@ impl Default for SetupOpts {
             cfgs: vec![Cfg::default()],
             with_reference: true,
             twin: false,
+            side_percent: 0,
         }
     }
 }
@@ -256,8 +275,9 @@ pub fn setup_strategy(o: &SetupOpts) -> BoxedStrategy<Setup> {
         prop::sample::select(regimes),
         o.retention.clone(),
         prop::sample::select(cfgs),
+        (0u32..100, 1u8..=255),
     )
-        .prop_map(move |(members, admin_mask, backends, regime, retention, mut cfg)| {
+        .prop_map(move |(members, admin_mask, backends, regime, retention, mut cfg, (side_roll, side_mask))| {
             cfg.retention = retention;
             Setup {
                 members,
@@ -268,6 +288,7 @@ pub fn setup_strategy(o: &SetupOpts) -> BoxedStrategy<Setup> {
                 regime,
                 with_reference: o.with_reference,
                 twin: o.twin,
+                side: if side_roll < o.side_percent { side_mask } else { 0 },
             }
         })
         .boxed()
